@@ -132,6 +132,16 @@ def _eq_hash(ctx, rep):
         rep.add("eq-hash", c + "::dynamic type compared", tm.where(eq), ok_t,
                 "" if ok_t else "__eq__ does not compare the dynamic types" +
                 (" (isinstance admits subclasses of a different kind)" if isinst else ""))
+        # the hash is a function of the current field values: nothing memoised on the instance
+        stores = [n for n in ast.walk(hs) if isinstance(n, ast.Attribute) and isinstance(n.ctx, ast.Store)]
+        other_reads = sorted({n.attr for n in ast.walk(hs) if isinstance(n, ast.Attribute)
+                              and isinstance(n.ctx, ast.Load) and norm(n.value) == "self"
+                              and n.attr not in ("_attrs", "__class__")})
+        pure = not stores and not other_reads
+        rep.add("eq-hash", c + "::hash computed from the current fields", tm.where(hs), pure,
+                "" if pure else ("__hash__ stores {} on the instance: a later field change or a copy made in "
+                                 "another process keeps a stale hash".format(norm(stores[0])) if stores else
+                                 "__hash__ reads {} instead of the value fields".format(other_reads)))
         # every attribute compared with ==, all of them
         uses_all = any(isinstance(n, ast.Call) and norm(n.func) == "all" for n in ast.walk(eq))
         rep.add("eq-hash", c + "::all attributes compared", tm.where(eq), uses_all,
@@ -162,6 +172,18 @@ def _time_print_parse(ctx, rep):
     printed = []      # (field, spec, absent marker)
     for a in call.args:
         fld = spec = marker = None
+        if isinstance(a, ast.BoolOp) and isinstance(a.op, ast.Or) and len(a.values) == 2 and \
+                isinstance(a.values[0], ast.Attribute) and norm(a.values[0].value) == "self" and \
+                isinstance(a.values[1], ast.Constant):
+            # `self.F or MARK`: falsy values print as the absent marker
+            fld, spec, marker = a.values[0].attr, "", a.values[1].value
+            falsy = {"hour": 0, "minute": 0, "DOW": 0}.get(fld)
+            if falsy is not None:
+                rep.violated("print-parse", "{}::field {} printed when present".format(c, fld), tm.where(st),
+                             "field {} is printed as `self.{} or {!r}`: the value {} prints as the absent "
+                             "marker and does not parse back".format(fld, fld, marker, falsy))
+            printed.append((fld, spec, marker))
+            continue
         if isinstance(a, ast.IfExp) and isinstance(a.body, ast.Call) and isinstance(a.body.func, ast.Attribute) \
                 and isinstance(a.body.func.value, ast.Constant) and a.body.args:
             ff = _format_fields(a.body.func.value.value)
@@ -231,8 +253,9 @@ def _time_print_parse(ctx, rep):
     samples = []
     table = ctx.model.const("ctparse.types", "pod_hours")
     pod_vals = sorted(table) if isinstance(table, dict) else ["morning"]
-    rng = {"year": [1970, 2024, 9999, 1], "month": [1, 12], "day": [1, 31], "hour": [0, 23], "minute": [0, 59],
-           "DOW": [0, 6], "POD": [pod_vals[0], pod_vals[-1], max(pod_vals, key=len)]}
+    rng = {"year": [1970, 2024, 9999, 1, 1900, 2000, 2100], "month": list(range(1, 13)),
+           "day": list(range(1, 32)), "hour": list(range(24)), "minute": list(range(60)),
+           "DOW": list(range(7)), "POD": list(pod_vals)}
     import itertools
     fields = [f for f, _, _ in printed]
     bad = None
